@@ -226,6 +226,15 @@ def site_program(site, payloads):
             else:
                 cont += [f"{pl} {typed}{kind} s{i}(a)", "integer, intent(in) :: a" + ("" if typed or kind == "subroutine" else f"\ninteger :: s{i}")] + ([f"s{i} = a"] if kind == "function" else []) + [f"end {kind} s{i}"]
             checks.append(("module/cm.html", f"PREFIX:s{i}", pl))
+        elif site == "fn-typespec":
+            # payload = name of a derived type that holds a prefix keyword; the function is typed in its prefix: no keyword in the heading, the type as written
+            if not types:
+                for tn in FN_TYPES:
+                    types += [f"type {tn}", "integer :: q", f"end type {tn}"]
+            cont += [f"type({pl}) function s{i}(a)", "integer, intent(in) :: a", f"s{i}%q = a", f"end function s{i}",
+                     f"function b{i}(a) bind(c, name='b_{i}') result(rb{i})", "integer, intent(in) :: a", f"integer :: rb{i}", f"rb{i} = a", f"end function b{i}"]
+            checks.append([("module/cm.html", f"PREFIX:s{i}", ""), (f"proc/s{i}.html", f"variable-s{i}", f"type({pl})", "type"),
+                           (f"proc/b{i}.html", f"HEADING:b{i}", f"result(rb{i}) bind(c, name='b_{i}')")])
         elif site == "relational":
             decl.append(f"logical, parameter :: {n} = {pl}")
             checks.append(("module/cm.html", f"variable-{n}", pl))
@@ -247,6 +256,7 @@ EXPR_SITES = ["expr-dim-result", "expr-dim-arg", "expr-dim-module", "expr-dim-co
 EXPRS = ["nn", "nn/2", "(nn+1)/2", "2*nn/3", "nn/2/2", "max(nn/2, 1)", "nn**2", "nn-1", "2:nn", "-1:nn/2", "nn, nn/2", "0:nn-1, 2", "size([1, 2])", "8/2", "nn*2/4"]
 RELATIONAL = ["1 < 2", "1 > 2", "1 <= 2", "1 >= 2", "1 == 2", "1 /= 2", "1 .lt. 2", "1 < 2 .and. 3 >= 2", "(1 <= 2) .or. (3 == 4)", "2 > 1 .and. 1 /= 0",
               "selected_real_kind(6, 30) > 0", "iand(1, 2) == 0", "[1, 2] == [1, 3]", "'a' < 'b'", "1.0_8 >= 2.0_8"]
+FN_TYPES = ["pure_t", "module_t", "elemental_t", "t_recursive", "impure_data", "plain_t"]
 CHARLEN_SITES = ["charlen-arg", "charlen-module", "charlen-component"]
 CHARLEN = ["*4", "*(nn)", "*(2*nn)", "*(nn/2)", "(3)*2", "(nn)*(nn/2)", "(2, nn)*4", "(3)", "*(*)", "(nn)*(*)"]
 KINDEXPR = ["selected_real_kind(6, 30)", "selected_int_kind(9)", "kind(1.0d0)", "max(4, 8)", "c_int"]
@@ -344,7 +354,7 @@ def work(job):
     neutral = "x" if site not in ("relational",) else "1 .eqv. 2"
     if site in EXPR_SITES:
         neutral = "4"
-    if site in CHARLEN_SITES:
+    if site in CHARLEN_SITES or site == "fn-typespec":
         neutral = None
     if site in ("binding-target", "proc-prefix"):
         neutral = None
@@ -424,6 +434,7 @@ def main(tier, replay_path=None):
     # the `lower` option lower-cases code, never the text of character literals
     for ls in ("initial-module-lower", "initial-component-lower", "bind-proc-lower", "initial-namelist-lower"):
         jobs.append((ls, ["Hello <World> & Co", "MeV  GeV", "N/A", "getCode", "ALL CAPS", "camelCase_Name"]))
+    jobs.append(("fn-typespec", FN_TYPES))
     for cs in CHARLEN_SITES:
         jobs.append((cs, [c for c in CHARLEN if cs == "charlen-arg" or "(*)" not in c]))
     jobs.append(("binding-target", [f"impl_{c}" for c in "abcdefgh"]))
